@@ -56,12 +56,12 @@ func init() {
 	run.Props["C11"] = &run.PropSpec{ID: "C11", Level: "exploration",
 		Rule:     "one evaluation = one (pool, asset) accounted-total equation after a committed block; distinct = (reserve, liabilities, custody) changed and new",
 		Monitors: func() []mon.Monitor { return []mon.Monitor{mon.NewC11()} },
-		Plan:     plan([]run.PlanItem{pi("mix", 12), pi("forced", 12), pi("orders", 6), pi("lp-value", 4), pi("lev-thin", 2)}, []run.PlanItem{pi("mix", 32), pi("forced", 24), pi("orders", 12), pi("lp-value", 8), pi("faults", 12), pi("lev-thin", 4)}),
+		Plan:     plan([]run.PlanItem{pi("mix", 12), pi("forced", 12), pi("orders", 10), pi("lp-value", 4), pi("lev-thin", 2)}, []run.PlanItem{pi("mix", 32), pi("forced", 24), pi("orders", 12), pi("lp-value", 8), pi("faults", 12), pi("lev-thin", 4)}),
 		Assume:   []string{boundsAssume}}
 	run.Props["C12"] = &run.PropSpec{ID: "C12", Level: "exploration",
 		Rule:     "one evaluation = one denom's TotalCommitted-vs-sum equation, one custody inequality, or one (account, denom) lock-up inequality; distinct = operands changed and new. Committed amounts are diffed at every tx / block-phase boundary to build the monitor's own uncommit ledger and the reference lock-up ledger",
 		Monitors: func() []mon.Monitor { return []mon.Monitor{mon.NewC12()} },
-		Plan:     plan([]run.PlanItem{pi("commit-life", 16), pi("mix", 12)}, []run.PlanItem{pi("commit-life", 32), pi("mix", 24), pi("rewards", 8)}),
+		Plan:     plan([]run.PlanItem{pi("commit-life", 16), pi("mix", 12), pi("forced", 2)}, []run.PlanItem{pi("commit-life", 32), pi("mix", 24), pi("rewards", 8), pi("forced", 8)}),
 		Assume:   []string{boundsAssume, "lock-up reference: every increase of committed oracle-pool shares is locked for 3600 s of block time; leveragelp ClosePositions and the leveragelp sweep may override (their justification is C10's)"}}
 	run.Props["C13"] = &run.PropSpec{ID: "C13", Level: "exploration",
 		Rule:     "one evaluation = one reward denom's solvency inequality after a block, one per-block credit-vs-inflow inequality, or one holder's claimable amount that changed at a tx / block-phase boundary; distinct = operands changed and new; plus the drain test (every holder claims in seeded random order)",
